@@ -315,7 +315,8 @@ pub fn install_panic_hook() {
         if msg.contains("MACHINERY-ERROR") || loc.contains("harness/src") || loc.starts_with("src/") && !loc.starts_with("src/core") && !loc.starts_with("src/generic") && !loc.starts_with("src/prelude") {
             eprintln!("harness panic: {} @ {}", msg, loc);
         }
-        LAST_PANIC.with(|p| *p.borrow_mut() = Some(format!("{} [{}]", loc, msg.chars().take(80).collect::<String>())));
+        // try_with: the hook may run while the thread's locals are being destroyed (calls made at thread exit)
+        let _ = LAST_PANIC.try_with(|p| *p.borrow_mut() = Some(format!("{} [{}]", loc, msg.chars().take(80).collect::<String>())));
     }));
 }
 
@@ -1227,6 +1228,36 @@ macro_rules! local_proto {
                 arr::<32>(key).map(|raw| PasetoSymmetricKey::<$V, Local>::from(Key::<32>::from(raw)))
             }
 
+            /// the three accepting entry points, called without touching any thread-local of the harness (this is
+            /// run from a thread-local destructor); returns the layers whose call panicked
+            pub fn raw_present_all(key: &[u8], token: &str) -> Vec<&'static str> {
+                let mut bad = Vec::new();
+                let Some(k) = enc_key(key) else { return bad };
+                let none: Option<&str> = None;
+                if catch_unwind(AssertUnwindSafe(|| {
+                    let _ = call_open!($ia, $V, Local, try_decrypt, token, &k, none, none);
+                }))
+                .is_err()
+                {
+                    bad.push("core");
+                }
+                if catch_unwind(AssertUnwindSafe(|| {
+                    let _ = GenericParser::<$V, Local>::default().parse(token, &k);
+                }))
+                .is_err()
+                {
+                    bad.push("generic");
+                }
+                if catch_unwind(AssertUnwindSafe(|| {
+                    let _ = PasetoParser::<$V, Local>::default().parse(token, &k);
+                }))
+                .is_err()
+                {
+                    bad.push("batteries_included");
+                }
+                bad
+            }
+
             history_fns!($V, Local, $ia, try_encrypt, EncKey);
             parser_history!(generic_parses, GenericParser::<$V, Local>::default(), yes, $V, Local, $ia, DecKey);
             parser_history!(prelude_default_parses, PasetoParser::<$V, Local>::default(), no, $V, Local, $ia, DecKey);
@@ -1367,6 +1398,37 @@ macro_rules! public_proto {
                 }
             }
 
+            /// the three accepting entry points, called without touching any thread-local of the harness (this is
+            /// run from a thread-local destructor); returns the layers whose call panicked
+            pub fn raw_present_all(key: &[u8], token: &str) -> Vec<&'static str> {
+                let mut bad = Vec::new();
+                let Some(raw) = pub_key_raw!($kind, key) else { return bad };
+                let Ok(k) = pub_key_typed!($kind, $V, &raw) else { return bad };
+                let none: Option<&str> = None;
+                if catch_unwind(AssertUnwindSafe(|| {
+                    let _ = call_open!($ia, $V, Public, try_verify, token, &k, none, none);
+                }))
+                .is_err()
+                {
+                    bad.push("core");
+                }
+                if catch_unwind(AssertUnwindSafe(|| {
+                    let _ = GenericParser::<$V, Public>::default().parse(token, &k);
+                }))
+                .is_err()
+                {
+                    bad.push("generic");
+                }
+                if catch_unwind(AssertUnwindSafe(|| {
+                    let _ = PasetoParser::<$V, Public>::default().parse(token, &k);
+                }))
+                .is_err()
+                {
+                    bad.push("batteries_included");
+                }
+                bad
+            }
+
             type SignKey<'k> = PasetoAsymmetricPrivateKey<'k, $V, Public>;
             type VerKey<'k> = PasetoAsymmetricPublicKey<'k, $V, Public>;
             history_fns!($V, Public, $ia, try_sign, SignKey<'_>);
@@ -1484,6 +1546,11 @@ pub fn core_issue(p: Proto, key: &[u8], seed: &[u8], msg: &str, footer: Option<&
 /// Core layer: `Paseto::<V,P>::try_decrypt/try_verify`. `key` = symmetric / public key material.
 pub fn core_present(p: Proto, key: &[u8], token: &str, footer: Option<&str>, assertion: Option<&str>) -> Out<String> {
     dispatch!(p, core_present(key, token, footer, assertion))
+}
+
+/// All three accepting entry points of `p`, without harness thread-locals (see the per-protocol functions).
+pub fn raw_present_all(p: Proto, key: &[u8], token: &str) -> Vec<&'static str> {
+    dispatch!(p, raw_present_all(key, token))
 }
 
 /// Core layer: footer / assertion set before the payload, then the payload replaced for a second token.
